@@ -46,9 +46,60 @@ Check C05_fallback_structure :
   map no_shard
     (filter (fun n => negb (mem n (concat (seg_replicas dcf rackf g keyspaces enabled connected pol rq shuf))))
             (uniq (concat (seg_nodes dcf rackf g enabled connected pol rq cho)))).
+Check C05_pick_accepted :
+  forall dcf rackf (g : ring N) keyspaces enabled connected shf pol rq,
+  sorted_strict g ->
+  (forall k s, ks_lookup keyspaces k = Some s -> nts_keys_ok s) ->
+  forall cho, (forall site len, (0 < len)%nat -> (cho site len < len)%nat) ->
+  pick_matches dcf rackf g keyspaces enabled connected pol rq
+    (option_map fst (pick dcf rackf g keyspaces enabled connected shf pol rq cho)) = true.
+Check C05_plan_accepted :
+  forall dcf rackf (g : ring N) keyspaces enabled connected shf pol rq,
+  sorted_strict g ->
+  (forall k s, ks_lookup keyspaces k = Some s -> nts_keys_ok s) ->
+  forall cho shuf, (forall site l, Permutation (shuf site l) l) ->
+  (forall site len, (0 < len)%nat -> (cho site len < len)%nat) ->
+  plan_matches dcf rackf g keyspaces enabled connected pol rq
+    (map fst (plan dcf rackf g keyspaces enabled connected shf pol rq cho shuf)) = true.
+Check C05_plan_properties :
+  forall dcf rackf (g : ring N) keyspaces enabled connected shf pol rq,
+  sorted_strict g ->
+  (forall k s, ks_lookup keyspaces k = Some s -> nts_keys_ok s) ->
+  forall cho shuf, (forall site l, Permutation (shuf site l) l) ->
+  (forall site len, (0 < len)%nat -> (cho site len < len)%nat) ->
+  let p := map fst (plan dcf rackf g keyspaces enabled connected shf pol rq cho shuf) in
+  P_nodup p /\ P_filter enabled p /\ P_locality dcf pol rq p /\ P_complete dcf g enabled pol rq p /\
+  P_order dcf rackf g keyspaces enabled connected pol rq p /\
+  P_lwt dcf rackf g keyspaces enabled connected pol rq p.
+Check C05_lwt :
+  forall dcf rackf (g : ring N) keyspaces enabled connected shf pol rq,
+  sorted_strict g ->
+  (forall k s, ks_lookup keyspaces k = Some s -> nts_keys_ok s) ->
+  forall cho shuf, (forall site l, Permutation (shuf site l) l) ->
+  (forall site len, (0 < len)%nat -> (cho site len < len)%nat) ->
+  rq_lwt rq = true ->
+  filter (fun n => (group_of dcf rackf g keyspaces enabled connected pol rq n <? 3)%nat)
+         (map fst (plan dcf rackf g keyspaces enabled connected shf pol rq cho shuf)) =
+  lwt_sequence dcf rackf g keyspaces enabled connected pol rq.
+Check C05_plan_nodes :
+  forall dcf rackf (g : ring N) keyspaces enabled connected shf pol rq,
+  sorted_strict g ->
+  (forall k s, ks_lookup keyspaces k = Some s -> nts_keys_ok s) ->
+  forall cho shuf, (forall site l, Permutation (shuf site l) l) ->
+  (forall site len, (0 < len)%nat -> (cho site len < len)%nat) ->
+  map fst (plan dcf rackf g keyspaces enabled connected shf pol rq cho shuf) =
+  match pick dcf rackf g keyspaces enabled connected shf pol rq cho with
+  | Some (p, _) => p :: remove_by N.eqb p (map fst (fallback dcf rackf g keyspaces enabled connected shf pol rq cho shuf))
+  | None => map fst (fallback dcf rackf g keyspaces enabled connected shf pol rq cho shuf)
+  end.
 Print Assumptions C05_accept_sound.
 Print Assumptions C05_pick_sound.
 Print Assumptions C05_fallback_accepted.
 Print Assumptions C05_fallback_properties.
 Print Assumptions C05_nodup_targets.
 Print Assumptions C05_fallback_structure.
+Print Assumptions C05_pick_accepted.
+Print Assumptions C05_plan_accepted.
+Print Assumptions C05_plan_properties.
+Print Assumptions C05_lwt.
+Print Assumptions C05_plan_nodes.
